@@ -33,7 +33,11 @@ FUNCTIONS = ['uxarray.grid.grid.Grid.face_areas',
     'uxarray.grid.grid.Grid.face_lon',
     'uxarray.grid.grid.Grid.face_lat',
     'uxarray.grid.grid.Grid.edge_lon',
-    'uxarray.grid.grid.Grid.edge_lat']
+    'uxarray.grid.grid.Grid.edge_lat',
+    'uxarray.grid.coordinates._xyz_to_lonlat_rad@arrays',
+    'uxarray.grid.coordinates._xyz_to_lonlat_deg@arrays',
+    'uxarray.grid.coordinates._normalize_xyz@arrays',
+    'uxarray.grid.coordinates._lonlat_rad_to_xyz@arrays']
 STANDINS = ["histories"]
 ASSUMPTIONS = []
 EXPLANATION = ""
